@@ -450,3 +450,68 @@ gate_case!(c18_gate_case_push_all, b"push", crate::symbol::InstrKind::Push, ALL1
 gate_case!(c18_gate_case_pop_all, b"pop", crate::symbol::InstrKind::Pop, ALL8);
 gate_case!(c18_gate_case_call_all, b"call", crate::symbol::InstrKind::Call, ALL16);
 gate_case!(c18_gate_case_rets_all, b"rets", crate::symbol::InstrKind::Rets, ALL16);
+
+// -------------------------------------------------------------- C04 H-litrange: 16-bit range of literals
+/// `#ddddd` / `#-ddddd` (5 symbolic digits) and `xHHHHH`: accepted as a literal iff the value is within
+/// [-32768, 65535]; an accepted literal carries the value modulo 2^16
+fn litrange_body(hex: bool, neg: bool, nd: usize) {
+    let d: [u8; 5] = kani::any();
+    let radix: u32 = if hex { 16 } else { 10 };
+    let mut val: i64 = 0;
+    static mut RBUF: [u8; 8] = [0; 8];
+    let mut n = 0;
+    unsafe {
+        RBUF[n] = if hex { b'x' } else { b'#' };
+        n += 1;
+        if neg {
+            RBUF[n] = b'-';
+            n += 1;
+        }
+        let mut i = 0;
+        while i < nd {
+            kani::assume((d[i] as u32) < radix);
+            RBUF[n] = if d[i] < 10 { b'0' + d[i] } else { b'a' + d[i] - 10 };
+            n += 1;
+            val = val * radix as i64 + d[i] as i64;
+            i += 1;
+        }
+    }
+    if neg {
+        val = -val;
+    }
+    let src: &'static str = unsafe { core::str::from_utf8_unchecked(&*core::ptr::addr_of!(RBUF).cast::<[u8; 8]>()).get_unchecked(..n) };
+    let mut c = Cursor::new(src);
+    let r = c.advance_token();
+    let fits = val >= -32768 && val <= 65535;
+    match r {
+        Ok(t) => {
+            // an out-of-range hex spelling may fall back to a label (never to a literal)
+            match lit_value(&t.kind) {
+                Some(v) => assert!(fits && v == (val & 0xFFFF) as u16, "out-of-range literal accepted, or literal value wrong"),
+                None => assert!(!fits && hex, "in-range literal not lexed as a literal"),
+            }
+        }
+        Err(e) => {
+            assert!(!fits, "in-range literal rejected");
+            core::mem::forget(e);
+        }
+    }
+    kani::cover!(fits && val > 32767);
+    kani::cover!(!fits);
+}
+macro_rules! litrange {
+    ($name:ident, $hex:expr, $neg:expr, $nd:expr) => {
+        #[kani::proof]
+        #[kani::unwind(9)]
+        #[kani::stub(alloc::fmt::format, stubs::fmt_format)]
+        #[kani::stub(Cursor::check_instruction, Cursor::check_instruction_any)]
+        #[kani::stub(Cursor::check_trap, Cursor::check_trap_any)]
+        fn $name() {
+            litrange_body($hex, $neg, $nd);
+        }
+    };
+}
+litrange!(c04_litrange_dec5, false, false, 5);
+litrange!(c04_litrange_dec_neg5, false, true, 5);
+litrange!(c04_litrange_hex5, true, false, 5);
+litrange!(c04_litrange_hex_neg4, true, true, 4);
